@@ -1484,9 +1484,10 @@ def _parse_plain(t, base):
 
 def _parse_numeral(t, base, frac_mode, sci_mode=False):
     t = t.strip()
-    if frac_mode and all(ch in '-0123456789/' for ch in t):
+    if frac_mode and all(ch in '-0123456789abcdefghijklmnopqrstuvwxyz/' for ch in t) and '.' not in t:
+        # numerator and denominator are numerals of the requested base (C05; repaired by a2f4f99: they used to be decimal)
         n, _, d = t.partition('/')
-        return _F(int(n), int(d) if d else 1), _F(0)
+        return _F(int(n, base), int(d, base) if d else 1), _F(0)
     import re as _re2
     if 'e' in t and (base <= 14 or sci_mode) and '.' in t.rsplit('e', 1)[0] and _re2.match(r'^-?[0-9]+$', t.rsplit('e', 1)[1]):
         m, ex = t.rsplit('e', 1)
@@ -1772,7 +1773,7 @@ def _pretty_witness(prop='C06', deep=False):
         return None
     fails = [l for l in out.splitlines() if l.startswith('FAIL ')]
     summary = ([l for l in out.splitlines() if l.startswith('PRETTY ')] or [''])[0]
-    known = _known_entries(prop, 'bounded::pretty#')
+    known = _known_entries('C06', 'bounded::pretty#')
     hits = []
     other = []
     for l in fails:
@@ -1783,7 +1784,8 @@ def _pretty_witness(prop='C06', deep=False):
                 break
         else:
             other.append(l)
-    known_hits['pretty'] = hits
+    # the listed findings belong to C06; under another property (C03 runs this family too) they are only filtered out
+    known_hits['pretty'] = hits if prop == 'C06' else []
     if not summary:
         return {'replayer': 'pretty', 'input': {'query': '(sweep)'}, 'output': one_line(out, 400), 'why': 'the read-back sweep did not finish: ' + one_line(out[-400:], 300), 'cmd': PRETTY_BIN}
     if not other:
